@@ -17,8 +17,9 @@ for f in sorted(glob.glob('/verif/seeded/*/meta.json')):
             if t and not t.startswith('#') and len(t)>30:
                 what=re.sub(r'[|`*]','',t)[:200]; break
     except Exception: pass
+    what=m.get('summary',what)
     rows.append((m['property'],m['label'],what,caught,missed,m.get('history','')))
-out='| change | first line of the author\'s notes | caught by (quick) | history |\n|---|---|---|---|\n'
+out='| change | what it does / what it needs | caught by (quick) | history |\n|---|---|---|---|\n'
 for p,l,w,c,mi,h in rows:
     out+=f"| {p}-{l} | {w} | {', '.join(c) if c else '—'}{(' (not: '+', '.join(mi)+')') if mi else ''} | {h} |\n"
 out+='\n**Behaviour-preserving patches** (no check may raise an alarm):\n\n| patch | checks run (all exit 0) |\n|---|---|\n'
